@@ -160,10 +160,55 @@ struct Runner {
 
   // wantDirect: also do the direct run (value()/hpwl() at every move); every case in the quick and search
   // tiers, corpus and replays, every other pair of cases in the thorough tier (time budget)
+  // Does this case get as far as the direct run?  (same tests as in `run` below)
+  static bool reachesDirectRun(const Circuit &input, const vd::Run &r) {
+    if (r.legalizeStatus != "ok") return false;
+    if (!vc::checkLegal(vd::withSnap(input, r.legalized), false).empty()) return false;
+    if (r.detailedStatus != "ok" || r.callbacks.empty()) return false;
+    return r.hasHook;
+  }
+
+  // the forked part of a case as one string (computed by a worker process in the main loop)
+  static std::string compute(const Circuit &input, const vd::Params &prm, bool wantDirect) {
+    vd::Run r = vd::runCase(input, prm);
+    std::string blob = vd::serializeRun(r);
+    std::ostringstream os;
+    os << blob.size() << "\n" << blob;
+    if (wantDirect && reachesDirectRun(input, r)) {
+      DirectRun d = directRun(input, prm);
+      os << "direct " << d.status << "\n";
+      for (auto &l : d.log) os << l << "\n";
+    } else os << "nodirect\n";
+    return os.str();
+  }
+
+  static bool parseBlob(const std::string &blob, vd::Run &r, bool &hasDirect, DirectRun &d) {
+    size_t p1 = blob.find('\n');
+    if (p1 == std::string::npos) return false;
+    size_t len = (size_t)atoll(blob.substr(0, p1).c_str());
+    if (p1 + 1 + len > blob.size()) return false;
+    if (!vd::parseRun(blob.substr(p1 + 1, len), r)) return false;
+    std::istringstream is(blob.substr(p1 + 1 + len));
+    std::string line;
+    if (!std::getline(is, line)) return false;
+    hasDirect = line.rfind("direct ", 0) == 0;
+    d = DirectRun();
+    if (hasDirect) {
+      d.status = line.substr(7);
+      while (std::getline(is, line)) d.log.push_back(line);
+    }
+    return true;
+  }
+
   void run(const std::string &id, const Circuit &input, const vd::Params &prm, bool wantDirect = true) {
+    run(id, input, prm, wantDirect, vd::runCase(input, prm), nullptr);
+  }
+
+  // `r` = vd::runCase(input, prm); `pre` = directRun(input, prm) if it has been computed already
+  void run(const std::string &id, const Circuit &input, const vd::Params &prm, bool wantDirect, const vd::Run &r,
+           const DirectRun *pre) {
     out.evaluations++;
     std::string inp = vd::caseString(input, prm);
-    vd::Run r = vd::runCase(input, prm);
     out.count("legalize_" + r.legalizeStatus);
     out.count(prm.nonDefault ? "params_nondefault" : "params_effort");
     if (r.legalizeStatus != "ok") return;
@@ -228,7 +273,7 @@ struct Runner {
       // the direct run gives the real value() / hpwl() / orientation flag at every step; its move log
       // must be the one of the Circuit::placeDetailed run
       DirectRun d;
-      if (wantDirect) d = directRun(input, prm);
+      if (wantDirect) d = pre ? *pre : directRun(input, prm);
       else d.status = "skipped";
       std::vector<std::string> movesOnly;
       for (const std::string &l : d.log)
@@ -357,13 +402,44 @@ int main(int argc, char **argv) {
     }
   }
   long long n = a.thorough() ? 40000 : (a.search() ? 15000 : 2500);
-  for (long long k = 0; k < n; ++k) {
-    if (a.only >= 0 && k != a.only) continue;
+  // The forked part of every case runs in worker processes on all cores (vd::ParallelBlobs); the parent
+  // consumes the results in case order, so the streams are those of a sequential run.
+  auto genCase = [&](long long k, Circuit &c, vd::Params &p) {
     vh::Rng g = vh::Rng::forCase(a.seed ^ 0xc05, k);
     vc::GenOpts o = optsFor(k);
-    Circuit c = vc::genCircuit(g, o);
-    vd::Params p = vd::genParams(g, k % 2 == 1);
-    rn.run("h" + std::to_string(k), c, p, !a.thorough() || ((k >> 1) & 1) == 0);
+    c = vc::genCircuit(g, o);
+    p = vd::genParams(g, k % 2 == 1);
+  };
+  auto wantDirect = [&](long long k) { return !a.thorough() || ((k >> 1) & 1) == 0; };
+  if (a.only >= 0) {
+    if (a.only < n) {
+      Circuit c(0);
+      vd::Params p;
+      genCase(a.only, c, p);
+      rn.run("h" + std::to_string(a.only), c, p, wantDirect(a.only));
+    }
+  } else {
+    vd::ParallelBlobs par(a.out + "/par-h-", n, vd::ParallelBlobs::defaultWorkers(), [&](long long k) {
+      Circuit c(0);
+      vd::Params p;
+      genCase(k, c, p);
+      return Runner::compute(c, p, wantDirect(k));
+    });
+    for (long long k = 0; k < n; ++k) {
+      Circuit c(0);
+      vd::Params p;
+      genCase(k, c, p);
+      std::string blob;
+      vd::Run r;
+      DirectRun d;
+      bool hasDirect = false;
+      if (par.get(k, blob) && Runner::parseBlob(blob, r, hasDirect, d))
+        rn.run("h" + std::to_string(k), c, p, wantDirect(k), r, hasDirect ? &d : nullptr);
+      else {
+        out.count("recomputed_in_parent");
+        rn.run("h" + std::to_string(k), c, p, wantDirect(k));
+      }
+    }
   }
   out.finish();
   return 0;
